@@ -206,8 +206,10 @@ Variable ev : bool.
 
 (* updateSortValues + Sort only permute the list *)
 Hypothesis sort_perm : forall st l, Permutation (e_sort env st l) l.
-(* MoveNone (0, "a1a1") is never generated: it is the end marker of the caller's loop *)
-Hypothesis gen_nz : forall k e t, ~ In 0 (e_gen env k e t).
+(* MoveNone (0, "a1a1") is never generated: it is the end marker of the caller's loop
+   (needed for the evasion flag of the call and for evasion = false, the flag of the refill) *)
+Hypothesis gen_nz : forall k e, e = false \/ e = ev ->
+  ~ In 0 (e_gen env k e (if ev then e_evt env else 0)).
 
 (* the evasion targets the generators are called with *)
 Definition EVT : N := if ev then e_evt env else 0.
@@ -549,12 +551,13 @@ Lemma drain_end st st8 : od_next env mode ev st = Some (st8, 0) ->
   od_drain 1 env mode ev st = Some (st8, []).
 Proof. intros Hn. cbn [od_drain]. rewrite Hn. reflexivity. Qed.
 
-Lemma stage_lists_nz e l Ls : Forall2 (fun k L => L = stage_gen e k) l Ls -> ~ In 0 (concat Ls).
+Lemma stage_lists_nz e l Ls : e = false \/ e = ev ->
+  Forall2 (fun k L => L = stage_gen e k) l Ls -> ~ In 0 (concat Ls).
 Proof.
-  induction 1 as [|k L ks Ls' HL _ IH]; cbn [concat]; [intros []|].
-  intros H0. apply in_app_or in H0 as [H0|H0]; [|now apply IH]. subst L. unfold stage_gen in H0.
-  destruct (_ || _); [now apply gen_nz in H0|]. destruct (k =? OD_6); [|destruct H0].
-  destruct e; [destruct H0|now apply gen_nz in H0].
+  intros He. induction 1 as [|k L ks Ls' HL _ IH]; cbn [concat]; [intros []|].
+  intros H0. apply in_app_or in H0 as [H0|H0]; [|now apply IH]. subst L. unfold stage_gen, EVT in H0.
+  destruct (_ || _); [now apply (gen_nz k e He) in H0|]. destruct (k =? OD_6); [|destruct H0].
+  destruct e; [destruct H0|now apply (gen_nz k false He) in H0].
 Qed.
 
 (* GetNextMove on a non-empty list (no fill) *)
@@ -660,7 +663,7 @@ Proof.
           - rewrite <- F7. exact (J_evt st HJ).
           - right. rewrite <- F1, Ht, Em3. cbn. lia.
           - unfold OD_PV in *. lia.
-          - intros H0. apply (Permutation_in _ Hperm) in H0. exact (stage_lists_nz _ _ _ HF1 H0). }
+          - intros H0. apply (Permutation_in _ Hperm) in H0. exact (stage_lists_nz ev _ _ (or_intror eq_refl) HF1 H0). }
         assert (Hn3 : od_next env mode ev st = od_next env mode ev st3).
         { rewrite Hnext. unfold od_next. rewrite (norm_id st3 HJ3). rewrite Dst3.
           apply core_fill; [exact Hm|now rewrite <- Dst3]. }
@@ -768,7 +771,7 @@ Proof.
                 - rewrite <- F7. exact (J_evt st HJ).
                 - right. rewrite <- F1, Em5. cbn. lia.
                 - lia.
-                - intros H0. apply (Permutation_in _ Hperm) in H0. exact (stage_lists_nz _ _ _ HF1 H0). }
+                - intros H0. apply (Permutation_in _ Hperm) in H0. exact (stage_lists_nz false _ _ (or_introl eq_refl) HF1 H0). }
               assert (Hn5 : od_next env mode ev st = od_next env mode ev st5).
               { rewrite Hnext, Hcore. unfold od_next. rewrite (norm_id st5 HJ5).
                 rewrite (core_nonempty st5 Hne5). unfold core_ne.
@@ -895,7 +898,7 @@ Section OD_noevasion.
 Variable env : odenv.
 Variable mode : N.
 Hypothesis sort_perm : forall st l, Permutation (e_sort env st l) l.
-Hypothesis gen_nz : forall k e t, ~ In 0 (e_gen env k e t).
+Hypothesis gen_nz : forall k, ~ In 0 (e_gen env k false 0).
 
 Theorem od_sequence_noevasion : forall st, od_start_ok env st ->
   let batch := od_batch env mode false false in
@@ -910,7 +913,9 @@ Theorem od_sequence_noevasion : forall st, od_start_ok env st ->
     (NoDup batch -> (pv_sel env mode pv = true -> In pv batch) -> NoDup out).
 Proof.
   intros st Hs batch pv.
-  destruct (od_sequence env mode false sort_perm gen_nz st Hs) as (Ls & st' & out & Hd & HF & Ho).
+  assert (Hnz : forall k e, e = false \/ e = false -> ~ In 0 (e_gen env k e 0))
+    by (intros k e [-> | ->]; apply gen_nz).
+  destruct (od_sequence env mode false sort_perm Hnz st Hs) as (Ls & st' & out & Hd & HF & Ho).
   assert (HLs : Ls = map (stage_gen env false false) (path mode OD_NEW)).
   { apply Forall2_eq_map. clear - HF. induction HF as [|k L l Ls H _ IH]; constructor; [|exact IH].
     destruct H as [H|H]; exact H. }
@@ -932,7 +937,7 @@ Section OD_evasion.
 Variable env : odenv.
 Variable mode : N.
 Hypothesis sort_perm : forall st l, Permutation (e_sort env st l) l.
-Hypothesis gen_nz : forall k e t, ~ In 0 (e_gen env k e t).
+Hypothesis gen_nz : forall k e, ~ In 0 (e_gen env k e (e_evt env)).
 (* evasion generation of a stage yields a duplicate free part of the non evasion list *)
 Hypothesis ev_incl : forall k x, In x (stage_gen env true true k) -> In x (stage_gen env true false k).
 Hypothesis ev_nodup : forall k, NoDup (stage_gen env true true k).
@@ -977,7 +982,9 @@ Theorem od_sequence_evasion : forall st, od_start_ok env st ->
     ((pv_sel env mode pv = true -> In pv (od_batch env mode true true)) -> NoDup out).
 Proof.
   intros st Hs pv.
-  destruct (od_sequence env mode true sort_perm gen_nz st Hs) as (Ls & st' & out & Hd & HF & Ho).
+  assert (Hnz : forall k e, e = false \/ e = true -> ~ In 0 (e_gen env k e (e_evt env)))
+    by (intros k e _; apply gen_nz).
+  destruct (od_sequence env mode true sort_perm Hnz st Hs) as (Ls & st' & out & Hd & HF & Ho).
   destruct (mix_facts _ _ HF batch_nodup) as (M1 & M2 & M3). fold pv in Ho.
   exists st', out. split; [exact Hd|].
   destruct (pv_sel env mode pv) eqn:Hsel.
